@@ -462,7 +462,8 @@ def _same_value(a, b):
         return a.addr == b.addr and getattr(a, 'view', None) is getattr(b, 'view', None)
     if isinstance(a, Quantity) and isinstance(b, Quantity):
         return a.unit == b.unit and _same_value(a.value, b.value)
-    if isinstance(a, (int, float, str, bool, type(None))) and isinstance(b, (int, float, str, bool, type(None))):
+    import fractions
+    if isinstance(a, (int, float, str, bool, type(None), fractions.Fraction)) and isinstance(b, (int, float, str, bool, type(None), fractions.Fraction)):
         return type(a) == type(b) and a == b
     if isinstance(a, Sc) and isinstance(b, Sc):
         return a.t.eq(b.t)
